@@ -390,6 +390,14 @@ func (w *World) deliver(m *Msg) {
 		if !m.Bcast && m.From == w.dealer && w.proto == FVSS && w.shareFirst[m.To] == nil {
 			w.shareFirst[m.To] = m
 		}
+		if !m.Bcast && w.proto != FVSS && w.isDealer(m.From) && r.round == 1 {
+			if w.firstPriv == nil {
+				w.firstPriv = map[[2]int]*Msg{}
+			}
+			if w.firstPriv[[2]int{m.From, m.To}] == nil {
+				w.firstPriv[[2]int{m.From, m.To}] = m
+			}
+		}
 	}
 	var err error
 	var p bool
@@ -848,6 +856,16 @@ func (w *World) checkFairness(hs []*Node) {
 				w.probe("fvss_failed")
 			} else {
 				w.probe("fvss_keys")
+				// the keys a participant accepts are those of the FIRST vector the dealer broadcast
+				// (later ones are duplicates: flagged, not acted upon) and its own share matches them
+				if vb := w.firstVecBytes[w.dealer]; len(vb) >= 96 && n.gpk != nil && !bytes.Equal(n.gpk.Encode(), vb[:96]) {
+					w.viol("C08", "fvss.reject", "fvss.keys-not-from-first-vector", "plain Feldman VSS: the group key node %d returns is not A_0 of the first vector the dealer broadcast", n.idx)
+					return
+				}
+				if n.sk != nil && len(n.pks) == w.n && !n.sk.PublicKey().Equals(n.pks[n.idx]) {
+					w.viol("C08", "fvss.reject", "fvss.keys-accepted:share-mismatch-in-keys", "plain Feldman VSS: node %d got keys from End() but its private share does not match its public share", n.idx)
+					return
+				}
 			}
 		}
 	} else {
@@ -858,6 +876,26 @@ func (w *World) checkFairness(hs []*Node) {
 			}
 			why := w.mustDisqualify(d)
 			if why == "" {
+				// the dealer may stay: then every honest participant whose first private message
+				// from it (round 1) was not its share of the broadcast vector - or who got none -
+				// has complained in public (the complaint is what gives the others the means to judge)
+				vf := w.vecFirst[d]
+				for _, n := range hs {
+					if n.idx == d || n.disq[d] || n.forced[d] {
+						continue
+					}
+					sf := w.firstPriv[[2]int{d, n.idx}]
+					bad := sf == nil || sf.Kind != "share" || !sf.Well || sf.Poly != vf.poly || sf.Idx != n.idx
+					if bad && !w.honestCompl[d][n.idx] {
+						got := "no private message in round 1"
+						if sf != nil {
+							got = fmt.Sprintf("first private message %s [%s] poly=%q idx=%d", sf.Kind, sf.Label, sf.Poly, sf.Idx)
+						}
+						w.viol("C08", "bad.accepted", "bad-share-no-complaint:"+protoName[w.proto],
+							"honest node %d did not get its share of the vector from Byzantine dealer %d (%s), the dealer stays qualified, and node %d never complained", n.idx, d, got, n.idx)
+						return
+					}
+				}
 				continue
 			}
 			w.probe("must_disqualify")
